@@ -5,6 +5,7 @@ import (
 	"fmt"
 	"math/rand"
 	"sort"
+	"strconv"
 	"strings"
 
 	"garrshim/vsched"
@@ -75,16 +76,18 @@ type travRec struct {
 }
 
 type qrun struct {
-	mutex   bool
-	q       queue.Queue
-	s       *sched // own[tid] = scheduling points thread tid has passed (every atomic / lock operation of an active layer is one)
-	tag     string // property the iterator-protocol monitors report under: C15 in the sequential family, C13 otherwise
-	edge    string // first failure of an edge-of-protocol call (exhausted Next, Remove with nothing to remove, mutex Iterator)
-	panic   string // first panic of a logical thread (recovered): a violation, never a silent crash
-	h       history
-	travs   []*travRec
-	drained []int // final drain (quiescent phase)
-	final   struct {
+	cd         *codec
+	sequential bool // one goroutine only: the history is sequential (the witness search is linear, Size is exact)
+	mutex      bool
+	q          queue.Queue
+	s          *sched // own[tid] = scheduling points thread tid has passed (every atomic / lock operation of an active layer is one)
+	tag        string // property the iterator-protocol monitors report under: C15 in the sequential family, C13 otherwise
+	edge       string // first failure of an edge-of-protocol call (exhausted Next, Remove with nothing to remove, mutex Iterator)
+	panic      string // first panic of a logical thread (recovered): a violation, never a silent crash
+	h          history
+	travs      []*travRec
+	drained    []int // final drain (quiescent phase)
+	final      struct {
 		size1, size2 int
 		empty1       bool
 		iter         []int
@@ -92,11 +95,113 @@ type qrun struct {
 	}
 }
 
-func resStr(x interface{}) string {
+// ---- value palette: the queues store interface{} values; tokens (ints) are mapped to Go values of different shapes so that
+// element handling does not depend on what an element is. Palette 0: plain ints. Palette 1: ints, strings, pointers, structs,
+// arrays, floats, empty structs. Palette 2: ints plus a few typed-nil values (non-nil interfaces whose data word is nil:
+// nil pointers of two types, a nil map, a nil channel, a nil func) - each stands for exactly one token of the run.
+type tnil0 struct{ _ int }
+type tnil1 struct{ _ [2]int }
+type boxed struct{ tok int }
+type emptyTok struct{}
+
+type codec struct {
+	pal   int
+	nilOf map[int]int // token -> typed-nil kind
+	tokOf [5]int      // typed-nil kind -> token (-1: unused)
+	empty int         // the token represented by emptyTok{} (-1: unused)
+}
+
+func newCodec(pal int) *codec {
+	return &codec{pal: pal, nilOf: map[int]int{}, tokOf: [5]int{-1, -1, -1, -1, -1}, empty: -1}
+}
+
+func typedNil(k int) interface{} {
+	switch k {
+	case 0:
+		return (*tnil0)(nil)
+	case 1:
+		return (*tnil1)(nil)
+	case 2:
+		return map[int]int(nil)
+	case 3:
+		return (chan int)(nil)
+	default:
+		return (func())(nil)
+	}
+}
+
+func (c *codec) enc(v int) interface{} {
+	switch c.pal {
+	case 1:
+		switch v % 7 {
+		case 1:
+			return fmt.Sprintf("s%d", v)
+		case 2:
+			return &boxed{v}
+		case 3:
+			return boxed{v}
+		case 4:
+			return [1]int{v}
+		case 5:
+			return float64(v) + 0.5
+		case 6:
+			if c.empty < 0 || c.empty == v {
+				c.empty = v
+				return emptyTok{}
+			}
+		}
+	case 2:
+		if k, ok := c.nilOf[v]; ok {
+			return typedNil(k)
+		}
+		if v%3 == 1 {
+			for k := range c.tokOf {
+				if c.tokOf[k] < 0 {
+					c.tokOf[k], c.nilOf[v] = v, k
+					return typedNil(k)
+				}
+			}
+		}
+	}
+	return v
+}
+
+func (c *codec) dec(x interface{}) int {
+	switch y := x.(type) {
+	case int:
+		return y
+	case string:
+		n, _ := strconv.Atoi(y[1:])
+		return n
+	case *boxed:
+		return y.tok
+	case boxed:
+		return y.tok
+	case [1]int:
+		return y[0]
+	case float64:
+		return int(y)
+	case emptyTok:
+		return c.empty
+	case *tnil0:
+		return c.tokOf[0]
+	case *tnil1:
+		return c.tokOf[1]
+	case map[int]int:
+		return c.tokOf[2]
+	case chan int:
+		return c.tokOf[3]
+	case func():
+		return c.tokOf[4]
+	}
+	return -12345 // a value that was never offered
+}
+
+func (r *qrun) resStr(x interface{}) string {
 	if x == nil {
 		return "nil"
 	}
-	return fmt.Sprintf("v%d", x.(int))
+	return fmt.Sprintf("v%d", r.cd.dec(x))
 }
 
 func (r *qrun) edgeFail(format string, args ...interface{}) {
@@ -127,7 +232,7 @@ func (r *qrun) exhaustedNext(tid int, it queue.Iterator) {
 	n0 := r.s.own[tid]
 	x := it.Next()
 	d := r.s.own[tid] - n0
-	r.h.end(o, resStr(x))
+	r.h.end(o, r.resStr(x))
 	if x != nil {
 		r.edgeFail("%s Next() after HasNext()==false returned %v, not nil", r.tag, x)
 	} else if d != 0 {
@@ -168,16 +273,16 @@ func (r *qrun) body(tid int, th qthread, mutex bool) func() {
 			switch op.kind {
 			case "offer":
 				o := r.h.begin(tid, "offer", op.v)
-				r.q.Offer(op.v)
+				r.q.Offer(r.cd.enc(op.v))
 				r.h.end(o, "unit")
 			case "poll":
 				o := r.h.begin(tid, "poll", -1)
 				x := r.q.Poll()
-				r.h.end(o, resStr(x))
+				r.h.end(o, r.resStr(x))
 			case "peek":
 				o := r.h.begin(tid, "peek", -1)
 				x := r.q.Peek()
-				r.h.end(o, resStr(x))
+				r.h.end(o, r.resStr(x))
 			case "isempty":
 				o := r.h.begin(tid, "isempty", -1)
 				b := r.q.IsEmpty()
@@ -209,15 +314,15 @@ func (r *qrun) body(tid int, th qthread, mutex bool) func() {
 					}
 					o = r.h.begin(tid, "next", -1)
 					x := it.Next()
-					r.h.end(o, resStr(x))
+					r.h.end(o, r.resStr(x))
 					if x != nil {
-						tr.vals = append(tr.vals, x.(int))
+						tr.vals = append(tr.vals, r.cd.dec(x))
 					} else {
 						tr.vals = append(tr.vals, -1)
 					}
 					if k < len(op.removes) && op.removes[k] && x != nil {
-						o = r.h.begin(tid, "remove", x.(int))
-						tr.removed = append(tr.removed, x.(int))
+						o = r.h.begin(tid, "remove", r.cd.dec(x))
+						tr.removed = append(tr.removed, r.cd.dec(x))
 						tr.removedAt = append(tr.removedAt, o.inv)
 						cur = "iterator Remove()"
 						it.Remove()
@@ -263,9 +368,9 @@ func (r *qrun) body(tid int, th qthread, mutex bool) func() {
 						}
 						o = r.h.begin(tid, "next", -1)
 						x := it.Next()
-						r.h.end(o, resStr(x))
+						r.h.end(o, r.resStr(x))
 						if x != nil {
-							r.final.iter = append(r.final.iter, x.(int))
+							r.final.iter = append(r.final.iter, r.cd.dec(x))
 						}
 					}
 					for j := 0; j < op.over; j++ {
@@ -278,11 +383,11 @@ func (r *qrun) body(tid int, th qthread, mutex bool) func() {
 				for {
 					o = r.h.begin(tid, "poll", -1)
 					x := r.q.Poll()
-					r.h.end(o, resStr(x))
+					r.h.end(o, r.resStr(x))
 					if x == nil {
 						break
 					}
-					r.drained = append(r.drained, x.(int))
+					r.drained = append(r.drained, r.cd.dec(x))
 				}
 				o = r.h.begin(tid, "size", -1)
 				n = r.q.Size()
@@ -483,7 +588,7 @@ func (r *qrun) monitorLin() string {
 			}})
 		case "size":
 			// on the mutex queue Size is as linearizable as the other operations (C19)
-			if o.ret == 0 || !r.mutex {
+			if o.ret == 0 || !(r.mutex || r.sequential) {
 				continue
 			}
 			ops = append(ops, linOp{o.inv, o.ret, "size=" + o.res, func(s string) (string, bool) {
@@ -491,7 +596,7 @@ func (r *qrun) monitorLin() string {
 			}})
 		}
 	}
-	if len(ops) > 26 {
+	if len(ops) > 26 && !r.sequential {
 		return ""
 	}
 	if ok, _ := linearizable(ops, ""); !ok {
@@ -687,6 +792,8 @@ func runQueue(fs *flag.FlagSet, args []string) {
 		}
 		ths, single := genQueueProgram(rng, family)
 		r := &qrun{mutex: *impl == "mutex", tag: "C13"}
+		r.cd = newCodec([]int{0, 0, 1, 2}[rng.Intn(4)])
+		r.sequential = len(ths) == 1 || family == "seq" // seq: one goroutine per phase, the phases do not overlap
 		if family == "seq" {
 			r.tag = "C15"
 		}
@@ -770,7 +877,7 @@ func runQueue(fs *flag.FlagSet, args []string) {
 				}
 			}
 		}
-		runf(run, "family=%s impl=%s ctor=%s freeze=%d@%d %s", family, *impl, call, frozenTid, s.freezeAt[frozenTid], strings.Join(desc, " "))
+		runf(run, "family=%s impl=%s ctor=%s values=%d freeze=%d@%d %s", family, *impl, call, r.cd.pal, frozenTid, s.freezeAt[frozenTid], strings.Join(desc, " "))
 		if dyn := fmt.Sprintf("%T", r.q); dyn != want {
 			// no property tag: whichever check runs this variant is not looking at the documented implementation
 			monf(run, "FAIL %s returned %s; queue/pkg.go documents %s for this constructor", call, dyn, want)
@@ -796,36 +903,48 @@ func runQueue(fs *flag.FlagSet, args []string) {
 				completed[o.arg] = true
 			}
 		}
-		if r.panic != "" {
-			msg = r.panic // untagged: reported by every check that runs this program
+		// every monitor reports on its own (a check only looks at the messages of its own property)
+		var msgs []string
+		add := func(m string) {
+			if m != "" {
+				msgs = append(msgs, m)
+			}
 		}
-		if msg == "" {
-			msg = r.edge
+		add(r.panic) // untagged: reported by every check that runs this program
+		add(r.edge)
+		lin := r.monitorLin()
+		add(lin)
+		if lin != "" && r.sequential {
+			// one goroutine: the history is sequential, so "no FIFO witness" means it is not the history of a plain FIFO list
+			add(strings.Replace(lin, "C01 history has no legal sequential FIFO witness", "C15 the single-goroutine history is not that of a plain FIFO list", 1))
 		}
-		if msg == "" {
-			msg = r.monitorLin()
+		add(r.monitorIter(offered, single))
+		if frozenTid < 0 {
+			add(r.monitorAccounting(offered, completed, single))
 		}
-		if msg == "" {
-			msg = r.monitorIter(offered, single)
+		if single && frozenTid < 0 {
+			add(r.monitorComplete(pre))
 		}
-		if msg == "" && frozenTid < 0 {
-			msg = r.monitorAccounting(offered, completed, single)
-		}
-		if msg == "" && single && frozenTid < 0 {
-			msg = r.monitorComplete(pre)
-		}
-		if msg == "" && frozenTid >= 0 {
+		if frozenTid >= 0 {
 			// C07: with one thread frozen for ever, every other thread completed all its operations
 			for i := range ths {
 				if i != frozenTid && !res.Done[i] {
-					msg = fmt.Sprintf("C07 thread %d did not complete although only thread %d is frozen", i, frozenTid)
+					add(fmt.Sprintf("C07 thread %d did not complete although only thread %d is frozen", i, frozenTid))
+					break
 				}
 			}
 		}
-		if msg != "" {
+		for i, m := range msgs {
 			if *impl == "mutex" {
-				msg = strings.Replace(msg, "C01 ", "C19 ", 1)
+				m = strings.Replace(m, "C01 ", "C19 ", 1)
 			}
+			if i > 0 {
+				monf(run, "FAIL %s", m)
+			} else {
+				msg = m
+			}
+		}
+		if msg != "" {
 			monf(run, "FAIL %s", msg)
 		} else {
 			monf(run, "ok steps=%d ops=%d threads=%d travs=%d", res.Steps, len(r.h.ops), len(ths), len(r.travs))
